@@ -419,7 +419,7 @@ func (s *sim) lastNonEmpty(tip uint64) uint64 {
 // Run is the check entry point.
 func Run(r *vk.Run) {
 	world.Silence()
-	maxLen := r.N(3, 4)
+	maxLen := r.N(3, 5)
 	r.Rule = fmt.Sprintf("every sequence of DA submit outcomes of length <= %d over {accept, prefix1, prefix2, timeout, mempool, toobig, error, acklost, cancelled} applied to the header stream and (rotated) to the data stream of a real aggregator, spread over two submission rounds with block production in between, for chain shapes mixing empty/non-empty blocks and initial heights {1,2,7}, with a restart (new Manager on the same store) after round 0, 1 or never; then accept-all. non-trivial = at least one non-accept outcome; distinct by (initial, shape, outcome sequences, restart position)", maxLen)
 	r.Assume("one iteration of the submission loops is driven through VerifSubmitHeadersOnce/VerifSubmitDataOnce (the ticker-driven loops run unmodified in C13)")
 	r.Assume("DA double: a blob is 'accepted' when the double stored it, also when the acknowledgement was lost")
